@@ -9,9 +9,17 @@ run_pipe(ctx):
   2. simulated behaviours become scenario scripts (1 tick = 1 s) for harness/c08pipe: the real
      edns+cache+resolver pipeline against authkit parents/children.  The oracle there uses only
      the scripted parents' referral logs and the version encoded in the served A records.
+  3. the long-lease family (run_long): the same module with RealTime = FALSE -- referral TTLs of 6 h / 1 d / 2 d
+     against the 12 h ceiling of the statement, answers of 1 h / 1 d, the clock moved by Jump(6 h + 100 s | 12 h + 100 s).
+     Exhaustive (MC_LP_long*), two model mutants (the ceiling missing from the cut the learning resolution reports:
+     FollowsParent; no ceiling at all: LeaseWithinGrant), two reachability configs; simulated behaviours become
+     scripts whose "jump" steps move the stored timestamps of the answer cache and the delegation cache
+     (virtual clock, overlay tag c08p).  Same oracle, the granted lease read as min(TTL, 12 h).
 """
 import json
+import os
 import random
+from concurrent.futures import ThreadPoolExecutor
 
 import vf
 
@@ -89,6 +97,205 @@ def _scenario(sid, beh, horizon=6):
     return sc, changes, q_before, q_after
 
 
+# ---- long-lease family ---------------------------------------------------------------------------------------------
+CEIL = 43200
+LONG_NEG = (("MC_LP_reg_ceilcut.cfg", "FollowsParent"), ("MC_LP_reg_noceil.cfg", "LeaseWithinGrant"),
+            ("MC_LP_reach_long.cfg", "NeverStaleWindow"), ("MC_LP_reach_ceil.cfg", "NeverCeilTension"))
+
+
+def _current(st, p, c):
+    cver = st["cver"]
+    cver = cver if isinstance(cver, list) else [cver[k] for k in sorted(cver)]
+    return p != 0 and p == st["pver"] and c == cver[p - 1]
+
+
+def _scenario_long(sid, beh):
+    """One behaviour of the RealTime = FALSE family -> script.  Steps run back to back; only "jump" moves the clock."""
+    cfg = beh[0][1]["cfg"]
+    steps, changes, feats = [], [], set()
+    q_before = q_after = jumps_before_last_query = jumps = 0
+    for k in range(1, len(beh)):
+        label, st = beh[k]
+        pre = beh[k - 1][1]
+        name = label.split("(")[0].strip()
+        at = 40 * len(steps)
+        if name == "Jump":
+            steps.append({"at": at, "op": "jump", "d": st["now"] - pre["now"]})
+            jumps += 1
+        elif name == "Query":
+            a = pre["ans"]
+            if a["pv"] != 0 and not _current(pre, a["pv"], a["cv"]) and a["exp"] <= pre["now"] < a["raw"]:
+                feats.add("ceil")       # only the ceiling has ended the stale answer: CeilTension, and a query looks
+            rp = st["reply"]
+            if rp not in ([9, 9], [0, 0]) and not _current(st, rp[0], rp[1]):
+                feats.add("leased")     # stale data served inside the (capped) lease
+            steps.append({"at": at, "op": "query", "exp": _exp(rp)})
+            if changes:
+                q_after += 1
+            else:
+                q_before += 1
+            jumps_before_last_query = jumps
+        elif name in OPS:
+            steps.append({"at": at, "op": OPS[name]})
+            changes.append(OPS[name])
+        else:
+            raise vf.MachineryError("unknown LeasePipe action %r in the long-lease family" % label)
+    while steps and steps[-1]["op"] != "query":     # trailing jumps / changes observe nothing
+        steps.pop()
+    sc = {"id": sid, "signed": bool(cfg["signed"]), "pNS": cfg["pNS"], "pDS": cfg["pDS"], "cNS": cfg["cNS"], "cDS": cfg["cDS"],
+          "childTTL": cfg["childTTL"], "child": cfg["child"], "deep": False, "valDelayMs": 0, "steps": steps,
+          "wire": False, "prefetch": 0, "long": True}
+    usable = bool(changes) and q_before >= 1 and q_after >= 1 and jumps_before_last_query >= 1
+    return sc, changes, feats, usable
+
+
+def _lease_of(sc, which):
+    t = sc[which + "NS"]
+    if sc["signed"]:
+        t = min(t, sc[which + "DS"])
+    return t
+
+
+def pick_long(ctx, behs, want):
+    rnd = random.Random(ctx.seed)
+    strata, seen = {}, set()
+    for bi, b in enumerate(behs):
+        if len(b) < 5:
+            continue
+        sc, changes, feats, usable = _scenario_long("L%04d" % bi, b)
+        if not usable:
+            continue
+        key = json.dumps({k: v for k, v in sc.items() if k != "id"}, sort_keys=True)
+        if key in seen:
+            continue
+        seen.add(key)
+        cls = "0ceil" if "ceil" in feats else "1leased" if "leased" in feats else "2plain"
+        sc["feats"] = sorted(feats)
+        st = "%s|s%d|%s|p%d|c%d|t%d" % (cls, sc["signed"], changes[0], _lease_of(sc, "p") > CEIL, _lease_of(sc, "c") > CEIL,
+                                        sc["childTTL"] > CEIL)
+        strata.setdefault(st, []).append(sc)
+    order = sorted(strata)
+    for s in strata.values():
+        rnd.shuffle(s)
+    classes = {}
+    for s in order:
+        classes.setdefault(s.split("|")[0], []).append(s)
+    for names in classes.values():
+        rnd.shuffle(names)
+        # a signed hierarchy re-reads the (clamped) stored delegation while it validates, which happens to bound the
+        # request tree as well: the unsigned strata come first so the share of a class never consists of signed ones only
+        names.sort(key=lambda n: n.split("|")[1] != "s0")
+    share = {"0ceil": 0.4, "1leased": 0.3, "2plain": 0.3}
+    picked = []
+    for cl, names in sorted(classes.items()):
+        quota, got = int(round(want * share.get(cl, 0.1))), 0
+        while got < quota and any(strata[n] for n in names):
+            for n in names:
+                if strata[n] and got < quota:
+                    picked.append(strata[n].pop())
+                    got += 1
+    while len(picked) < want and any(strata.values()):
+        for s in order:
+            if strata[s] and len(picked) < want:
+                picked.append(strata[s].pop())
+    for i, sc in enumerate(picked):
+        sc["wire"] = i % 2 == 1
+        sc["id"] += "w" if sc["wire"] else "m"
+    return picked, len(order)
+
+
+def _use_c08p(ctx):
+    """the harness needs the c08p shifters (overlay tag c08p): rebuild the overlay list if it was made without them"""
+    if "c08p" not in ctx.overlay_tags:
+        ctx.overlay_tags.add("c08p")
+        ov = os.path.join(ctx.scratch, "overlay.json")
+        if os.path.exists(ov):
+            os.remove(ov)
+
+
+def observe_glue_hosts(ctx):
+    """OBSERVATION, never a verdict (harness/c08pipe/gluehost_test.go): the resolver's un-timed NS-host address maps
+    (glueV4 / glueV6).  The statement speaks of the delegation the parent granted and of what is served; an address
+    remembered for an out-of-zone NS host is neither, so nothing is judged -- the behaviour is logged."""
+    cases = [{"id": "glueless-60s", "lease": 60, "jump": 200}, {"id": "glueless-1d", "lease": 86400, "jump": 90000},
+             {"id": "glued-60s", "glued": True, "lease": 60, "jump": 200}, {"id": "hostgone-60s", "gone": True, "lease": 60, "jump": 200}]
+    try:
+        res = ctx.go_driver("./c08pipe", "TestGlueHostObservation", {"cases": cases}, name="c08pipe_gluehost", timeout=300)
+    except vf.MachineryError as ex:
+        ctx.log("OBSERVATION [C08 glue hosts] not made: %s" % str(ex).splitlines()[0])
+        return
+    c = res.get("counters") or {}
+    ctx.cov["replay"]["c08_glue_host_observation"] = {"cases": len(cases), "counters": c, "samples": res.get("samples", [])[:4],
+                                                      "skipped": (res.get("skipped") or [])[:4], "verdict": "none (not a predicate of the statement)"}
+    stale = c.get("obs_glueless_stale_address", 0)
+    gone = c.get("obs_hostgone_stale_address", 0)
+    if stale or gone:
+        ctx.log("OBSERVATION [C08 glue hosts] (no verdict) the address first seen for an out-of-zone NS host named without glue is used "
+                "after every TTL and lease involved has ended: %d of 2 cases where the host moved (its zone now publishes another address; the "
+                "host was not looked up again, the old server was asked and its data served), %d of 1 where the host's zone was withdrawn by "
+                "the root (www.c.p. still resolved); control with glue in the referral followed the parent: %d of 1   [Resolver.glueV4/glueV6: "
+                "LRU only, read before any look-up in lookupNSAddrV4/V6]" % (stale, gone, c.get("obs_glued_followed", 0)))
+    else:
+        ctx.log("OBSERVATION [C08 glue hosts] (no verdict) a moved / withdrawn out-of-zone NS host was looked up again: %s" % c)
+
+
+def run_long(ctx):
+    """The lease-length dimension above the 12 h ceiling (see the module docstring, 3.)."""
+    thorough = ctx.tier == "thorough"
+    ctx.assumptions += [
+        "C08 pipeline, long-lease family: virtual clock = the answer cache's and the delegation cache's stored timestamps moved "
+        "into the past between two steps (overlay shifters c08p), nothing in flight (prefetch off, IPv6 off); referral TTLs 6 h / 1 d / 2 d, "
+        "answers 1 h / 1 d, jumps of 6 h + 100 s and 12 h + 100 s: no reachable instant is within 100 s of a lease end, real latencies "
+        "(milliseconds) never decide a verdict; the ceiling in the oracle is the statement's 12 h, not read from the code",
+    ]
+    num, depth, want = (2500, 12, 16) if not thorough else (12000, 14, 80)
+
+    def neg(cfg, inv):
+        def run():
+            r = ctx.tlc(MOD, "MC_LP.tla", cfg, workers=2, timeout=300, heap="2g", must_pass=False, count=False, tag="regression-must-fail")
+            if r.violated != inv:
+                raise vf.MachineryError("LeasePipe %s no longer violates %s (got %s): vacuous model?" % (cfg, inv, r.violated))
+        return run
+    jobs = [lambda: ctx.tlc(MOD, "MC_LP.tla", "MC_LP_long.cfg", workers=4, timeout=900, heap="4g", tag="long-exhaustive")]
+    if thorough:
+        jobs.append(lambda: ctx.tlc(MOD, "MC_LP.tla", "MC_LP_long_full.cfg", workers=8, timeout=2400, heap="12g", tag="long-exhaustive"))
+    jobs += [neg(c, i) for c, i in LONG_NEG]
+    ctx.spec_dir(MOD)
+    with ThreadPoolExecutor(max_workers=4) as ex:
+        fsim = ex.submit(lambda: ctx.tlc_behaviours(MOD, "MC_LP.tla", "Sim_LP_long.cfg", num=num, depth=depth, timeout=900))
+        futs = [ex.submit(j) for j in jobs]
+        behs = fsim.result()
+        fobs = ex.submit(lambda: observe_glue_hosts(ctx))     # go test while TLC finishes
+        for f in futs:
+            f.result()
+        fobs.result()
+    picked, nstrata = pick_long(ctx, behs, want)
+    fc = {}
+    for sc in picked:
+        for f in sc["feats"] or ["plain"]:
+            fc[f] = fc.get(f, 0) + 1
+        if "ceil" in sc["feats"] and not sc["signed"]:
+            fc["ceil_unsigned"] = fc.get("ceil_unsigned", 0) + 1
+    ctx.log("C08 pipeline, long-lease family: %d behaviours simulated, %d strata, %d scenarios picked, features %s" % (len(behs), nstrata, len(picked), fc))
+    if len(picked) < min(want, 12) or fc.get("ceil", 0) < 3 or fc.get("ceil_unsigned", 0) < 2 or fc.get("leased", 0) < 2 or fc.get("plain", 0) < 2:
+        raise vf.MachineryError("LeasePipe long-lease simulation: %d usable scenarios, features %s (vacuous)" % (len(picked), fc))
+    res = ctx.go_driver("./c08pipe", "TestLeasePipeline", {"scenarios": picked, "workers": 8}, name="c08pipe_long", timeout=900)
+    ctx.take_driver_result(res, "[C08 pipeline, long leases] ")
+    c = res.get("counters") or {}
+    ctx.cov["replay"]["c08_pipeline_long"] = {"scenarios": len(picked), "ran": res["cases"], "features": fc, "drift": res["drift"],
+                                              "drift_notes": (res.get("drift_notes") or [])[:8], "skipped": (res.get("skipped") or [])[:8], "counters": c}
+    if res.get("violations"):
+        return res
+    if res["cases"] < len(picked) - 2:
+        raise vf.MachineryError("C08 long-lease family ran %d of %d scenarios (skipped: %s)" % (res["cases"], len(picked), (res.get("skipped") or [])[:3]))
+    if (c.get("jumps", 0) < len(picked) or c.get("jump_shifted_answers", 0) < len(picked) or c.get("jump_shifted_delegations", 0) < len(picked)
+            or c.get("long_queries_after_jump", 0) < len(picked) or c.get("long_reply_leased", 0) < 2 or c.get("long_reply_current", 0) < len(picked)):
+        raise vf.MachineryError("C08 long-lease replay is vacuous: %s" % c)
+    if res["drift"] > len(picked) // 3:
+        raise vf.MachineryError("C08 long-lease family: %d drift notes on %d scenarios (binding lost): %s" % (res["drift"], len(picked), (res.get("drift_notes") or [])[:3]))
+    return res
+
+
 def _stratum(sc, changes):
     return "%s|s%d|%s|d%d|v%d|t%d" % (changes[0], sc["signed"], sc["child"], sc["deep"], sc["valDelayMs"] > 0, sc["childTTL"] == 1)
 
@@ -99,11 +306,14 @@ def run_pipe(ctx):
     ctx.cov["rule"] += (" | C08 pipeline tier: scenarios = simulated behaviours of LeasePipe.tla with at least one parent-side change "
                         "between client queries, run in real time (1 tick = 1 s) on the full pipeline; distinct = scenario/reply-class signature")
     ctx.assumptions += [
-        "C08 pipeline: real time, NS/DS TTLs 1..3 s; the 12 h ceiling is left to the API tier",
+        "C08 pipeline: real time, NS/DS TTLs 1..3 s (the long-lease family, under a virtual clock, covers TTLs around the 12 h ceiling)",
         "C08 pipeline: tolerance on a lease end = end of the client query during which the parent served the referral, minus delays the script "
         "injected afterwards, + 30 ms (400 ms when the referral was served outside any client query)",
         "C08 pipeline: NXDOMAIN / SERVFAIL replies are never judged (truth-or-SERVFAIL shape); replies inside the tolerance window are 'gray'",
     ]
+    _use_c08p(ctx)
+    # ---- 0. the long-lease family (12 h ceiling), virtual clock: cheap, first ----------------
+    run_long(ctx)
     # ---- 1. model -------------------------------------------------------------------------
     ctx.tlc(MOD, "MC_LP.tla", "MC_LP_quick.cfg", workers=6, timeout=900, heap="6g")
     if thorough:
@@ -180,7 +390,9 @@ def replay_pipe(ctx, path):
     sc = (rec.get("replay") or {}).get("scenario")
     if not isinstance(sc, dict) or "steps" not in sc:
         return False
-    ctx.tlc(MOD, "MC_LP.tla", "MC_LP_quick.cfg", workers=6, timeout=900, heap="6g")   # the property statement the replay is judged by
+    _use_c08p(ctx)
+    # the property statement the replay is judged by
+    ctx.tlc(MOD, "MC_LP.tla", "MC_LP_long.cfg" if sc.get("long") else "MC_LP_quick.cfg", workers=6, timeout=900, heap="6g")
     scs = []
     for k in range(3):
         c = dict(sc)
